@@ -462,6 +462,12 @@ def confirm_vsched(ctx, exe, ex, spec_dir, module, cfg, label, what, env, harnes
             "harness": os.path.basename(exe), "env": env or {}, "policy": ex["policy"], "scenario": ex["scenario"],
             "what": what}
     if verdict is None:
+        if '"sig": 14' in what:
+            # the wall-clock limit of one execution fired in the batch (a loaded machine) and the same schedule - it is
+            # deterministic - runs to its End event and is accepted in isolation: not a verdict in either direction
+            ctx.inconclusive.append("one execution hit the wall-clock limit in its batch and completed (accepted) when re-run alone: "
+                                    "policy %r, replay dir %s" % (ex["policy"], rd))
+            return
         raise CheckError("vsched rejection did not reproduce in isolation (%s); replay dir %s" % (what, rd))
     meta["confirmed"] = verdict
     json.dump(meta, open(os.path.join(rd, "replay.json"), "w"), indent=1)
